@@ -21,11 +21,11 @@ ENGINES = {
 
 H3_STUB = {
     "real": ["server (partition, replicator, metadata, fsm, api, cursors, groups, activity, failover, propagation; instrumented mechanically)",
-             "server/commitlog (instrumented)", "server/telemetry (instrumented)", "server/protocol", "server/encryption", "casbin", "raft-boltdb (log store of the Raft stub)", "file system of the sandbox kernel",
+             "server/commitlog (instrumented)", "server/telemetry (instrumented)", "server/protocol", "server/encryption (instrumented; its stores to shared memory and those of server/api.go are scheduling points)", "casbin", "raft-boltdb (log store of the Raft stub)", "file system of the sandbox kernel",
              "Server.Start / startAPIServer: the tree's own code minus TCP listener, gRPC Serve loop and signal handler (derived at build time by instr/derive.go)",
              "config parsing (NewConfig, YAML + environment) in C19"],
     "stub": ["NATS server + nats.go client: simulated bus with NATS subject, queue-group and per-connection FIFO semantics (fakes/natsgo)",
-             "hashicorp/raft + nats-on-a-log: ordered-commit stub with one committed log, seeded apply lag, elections among members that reach a majority, snapshots with log compaction, restart from snapshot + replay (fakes/raft) - Raft itself is not under test",
+             "hashicorp/raft + nats-on-a-log: ordered-commit stub with one committed log, seeded apply lag, members that learn nothing new for seconds (late metadata), elections among members that reach a majority, snapshots with log compaction, restart from snapshot + replay (fakes/raft) - Raft itself is not under test",
              "HTTP transport (C19): recorder in place of http.DefaultTransport",
              "nuid: deterministic counter", "gRPC transport, TLS, signal delivery: bypassed (handlers called in-process)",
              "goroutine scheduling (simrt, seeded)", "clock and timers (testing/synctest fake clock)"],
@@ -325,3 +325,17 @@ _S4 = {
 }
 for _k, _v in _S4.items():
     PROPS[_k]["technique"] += "; fourth session: " + _v
+
+# ---- fifth session: what was added to each check (appended to the technique text) ----
+_S5 = {
+    "C02": "the metadata reach one server late for 1-6 s (it keeps following and reporting to the leader it knows), a follower misses a beat so that followers are unevenly caught up when the leader goes, the stale-follower family; the recorded hw-fallback finding is recognised only for offsets above a fallback truncation that removed something",
+    "C04": "40% of the programs are the C02 failover families (chains, ping-pong, stale follower) and a deposed-leader family in which the leader's stall begins the moment it answers a fetch with messages; late metadata, uneven followers; the ack observation is one instant (no optional scheduling point while the holders are read, torn observations are not judged); acks by a server the committed metadata name deposed are the recorded no-fencing finding",
+    "C06": "a lagging node catches up while a client keeps asking it (shared engine with C12)",
+    "C07": "cluster mode inherits late metadata from the C02 chains",
+    "C11": "the configured number of cursors partitions changes across restarts, cluster programs read their own writes and half of them read the log on every fetch, two cursor ids whose keys collide under the partitioning hash",
+    "C12": "assignments are asked for while a lagging node applies the committed operations (API goroutines next to the FSM goroutine)",
+    "C15": "stores to shared memory in server/api.go are scheduling points; in 40% of the programs admin's reads run on other API goroutines next to the judged call",
+    "C17": "server/encryption is instrumented and its stores to shared memory are scheduling points (the one handler of a partition is shared by its subscription goroutines)",
+}
+for _k, _v in _S5.items():
+    PROPS[_k]["technique"] += "; fifth session: " + _v
